@@ -235,12 +235,13 @@ type Swallow struct {
 
 // Summary of a callee.
 type Summary struct {
-	MustAll  map[Tag]bool
-	MustOk   map[Tag]bool
-	MustFail map[Tag]bool
-	May      map[Tag]bool
-	HasOk    bool
-	HasFail  bool
+	AlwaysErr bool // every exit returns a provably non-nil error
+	MustAll   map[Tag]bool
+	MustOk    map[Tag]bool
+	MustFail  map[Tag]bool
+	May       map[Tag]bool
+	HasOk     bool
+	HasFail   bool
 }
 
 // AssignPoint is a classified assignment with the state before it.
@@ -703,6 +704,9 @@ func (r *runner) contradictory(st *State) bool {
 // deadTag marks a state as infeasible: a CondTags result "#not:X" on an edge where X is established
 // on every path (the rule states that X and this edge contradict each other).
 const deadTag = "#dead"
+
+// Dead can be returned by CondTags to mark the branch as infeasible under a stated assumption of the rule.
+const Dead = deadTag
 
 func (r *runner) addTag(st *State, t Tag) {
 	if t == "" {
@@ -1227,6 +1231,9 @@ func (r *runner) nonNilCall(c *ast.CallExpr, st *State) bool {
 	if r.sp.AssumeNonNil != nil && r.sp.AssumeNonNil(r.pkg, c) {
 		return true
 	}
+	if or := r.origins[c]; or != nil && or.Sum != nil && or.Sum.AlwaysErr && or.ErrIdx == 0 {
+		return true
+	}
 	f := core.Callee(r.info, c)
 	if f == nil || f.Pkg() == nil {
 		return false
@@ -1480,6 +1487,12 @@ func (r *runner) exit(ret *ast.ReturnStmt, pos token.Pos, st *State) {
 
 func (r *runner) summarise() *Summary {
 	s := &Summary{May: map[Tag]bool{}}
+	s.AlwaysErr = len(r.res.Exits) > 0
+	for _, ex := range r.res.Exits {
+		if ex.Class != ExitErr {
+			s.AlwaysErr = false
+		}
+	}
 	for _, ex := range r.res.Exits {
 		for t := range ex.St.May {
 			s.May[t] = true
